@@ -60,6 +60,10 @@ CORPUS = [
     "Select(ds, lambda e: Select(Select(e.jets, lambda j: (j, e)), lambda e: (lambda: 1000)() + e[0].pt + e[1].met))",
     # F18
     "{'a': 1, 'a': 2}.a", "{'a': 1, 'a': 2}['a']", "{1: 'x', True: 'y'}[1]",
+    # a computed key hides every entry written before it (it may be the same key at run time)
+    "{'a': 1, k: 2}['a']", "{k: 2, 'a': 1}['a']", "{'a': 1, k: 2}.a", "Select(ds, lambda e: {'a': e.a, ('a' if e.b > 0 else 'z'): e.b}['a'])",
+    "Select(Select(ds, lambda e: {'a': e.a, ('a' if e.b > 0 else 'z'): e.met}), lambda d: d.a + d['a'])",
+    "Select(Select(ds, lambda e: {('a' if e.b > 0 else 'z'): e.met, 'a': e.a}), lambda d: d.a)",
     # F20 SelectMany of SelectMany
     "(lambda z: SelectMany(SelectMany(ds, lambda x: x.jets), lambda y: Select(y.trk, lambda t: t.a + z)))(5)",
     "SelectMany(SelectMany(ds, lambda x: x.jets), lambda y: Select(Select(y.trk, lambda t: (t.a, t.b)), lambda u: u[0]))",
